@@ -1876,6 +1876,30 @@ int32 parseServerHello(ssl_t *ssl, int32 hsLen, unsigned char **cp,
 
 /******************************************************************************/
 
+# ifdef USE_ECC_CIPHER_SUITE
+/* Was this group in the supported_groups extension of our ClientHello?
+   tls13WriteClientHello lists ssl->tls13SupportedGroups, the TLS <1.3
+   matrixSslEncodeClientHello the curves of the session's ecFlags. */
+static psBool_t clientOfferedEcGroup(ssl_t *ssl, uint16_t group)
+{
+    uint32_t ecFlags = ssl->ecInfo.ecFlags;
+
+#  ifdef USE_TLS_1_3
+    if (SUPP_VER(ssl, v_tls_1_3_any))
+    {
+        return tls13WeSupportGroup(ssl, group);
+    }
+#  endif
+#  ifdef USE_SEC_CONFIG
+    if (ssl->ecFlagsOverride != 0)
+    {
+        ecFlags = ssl->ecFlagsOverride;
+    }
+#  endif
+    return (psTestUserEcID(group, ecFlags) == PS_SUCCESS) ? PS_TRUE : PS_FALSE;
+}
+# endif /* USE_ECC_CIPHER_SUITE */
+
 int32 parseServerKeyExchange(ssl_t *ssl,
     unsigned char hsMsgHash[SHA512_HASH_SIZE],
     unsigned char **cp, unsigned char *end)
@@ -1973,11 +1997,12 @@ int32 parseServerKeyExchange(ssl_t *ssl,
             /* Next is curveId */
             i = *c << 8; c++;
             i |= *c; c++;
-            if (!psIsEcdheGroup(i))
+            if (!psIsEcdheGroup(i) || !clientOfferedEcGroup(ssl, i))
             {
                 ssl->err = SSL_ALERT_ILLEGAL_PARAMETER;
-                psTraceErrr("Unsupported ECDHE group in SKE\n");
+                psTraceErrr("Unsupported or not offered ECDHE group in SKE\n");
                 psTraceIntInfo("Group ID: %d\n", i);
+                return MATRIXSSL_ERROR;
             }
             ssl->sec.peerCurveId = i;
 
